@@ -610,7 +610,7 @@ func batchCase(k *vlib.Case, unknown uint64) {
 		for _, e := range rec.drain() {
 			if why := reasonOf(e.c); why != "" {
 				verb := map[string]string{"store": "stores", "fetch": "fetches", "announce": "announces"}[e.kind]
-				k.Fail(fmt.Sprintf("bs-%s-rejected/%s/%s", verb, op, why), "the block service never "+e.kind+"s a block whose CID the validator rejects",
+				k.Fail(fmt.Sprintf("bs-%s-rejected/%s/%s", verb, op, why), "the block service never "+verb+" a block whose CID the validator rejects",
 					"no "+e.kind+" of "+e.c.String(), fmt.Sprintf("%s via %s of %s (%s)", e.kind, e.via, e.c, why))
 			}
 			k.C.Count("events_"+e.kind, 1)
